@@ -70,6 +70,9 @@ CALLS = {
   'self._insertions.bisect_left': ('bkl (inss %w)', ['F'], 'Z'),
   'self._insertions.irange': ('sl_irange (inss %w)', ['F', 'F'], 'LF'),
   'nextfloat': ('nextfloat', ['F'], 'F'),
+  'math.frexp': ('ffrexp', ['F'], 'PFZ'),
+  'math.floor': ('ffloor', ['F'], 'Z'),
+  'math.ldexp': ('fldexp', ['F', 'Z'], 'RF'),        # may raise OverflowError: bound at statement level (hoisted)
 }
 VOCAB = set(v[0].split()[0] for v in CALLS.values()) | set('adjs inss mkwl sl_update bsearch nthZ lenZ zrange'.split())
 LENS = {'self._orig_list': 'lenZ orig', 'self._adjustments': 'lenZ (adjs %w)', 'self._insertions': 'lenZ (inss %w)'}
@@ -78,9 +81,11 @@ LENS = {'self._orig_list': 'lenZ orig', 'self._adjustments': 'lenZ (adjs %w)', '
 class Expr(object):
   """Expression translator; env maps local names to types, w is the name of the current work list."""
 
-  def __init__(self, env, w='w'):
+  def __init__(self, env, w='w', hoist=None):
     self.env = env
     self.w = w
+    self.hoist = hoist          # fresh-name generator of the enclosing statement, or None: no calls that may raise
+    self.binds = []             # [(name, text)]: calls that may raise, in evaluation order, bound before the statement
 
   def sub(self, s):
     if '%w' in s and self.w is None:
@@ -220,7 +225,14 @@ class Expr(object):
     if len(argt) != len(n.args):
       raise Untranslatable('arity of %s' % name)
     args = [self.typed(a, t) for a, t in zip(n.args, argt)]
-    return '(%s)' % ' '.join([self.sub(head)] + args), rt
+    text = '(%s)' % ' '.join([self.sub(head)] + args)
+    if rt == 'RF':
+      if self.hoist is None:
+        raise Untranslatable('call of %s (may raise) in a place where it cannot be bound' % name)
+      t = self.hoist('t')
+      self.binds.append((t, text))
+      return t, 'F'
+    return text, rt
 
   def subscript(self, n):
     # self._adjustments[i][0] / [1]
@@ -240,13 +252,13 @@ class Expr(object):
        or len(g.iter.args) != 2:
       raise Untranslatable('comprehension shape')
     lo, hi = self.typed(g.iter.args[0], 'Z'), self.typed(g.iter.args[1], 'Z')
-    inner = Expr(dict(self.env, **{g.target.id: 'Z'}), self.w)
+    inner = Expr(dict(self.env, **{g.target.id: 'Z'}), self.w)       # no hoisting out of a comprehension
     body = inner.typed(n.elt, 'F')
     return '(map (fun %s => %s) (zrange %s %s))' % (cname(g.target.id), body, lo, hi), 'LF'
 
 
 # ---- statements ---------------------------------------------------------------------------------------------------------
-COQTYPE = {'Z': 'Z', 'F': 'fl', 'B': 'bool', 'LF': 'list fl', 'PFF': '(fl * fl)'}
+COQTYPE = {'Z': 'Z', 'F': 'fl', 'B': 'bool', 'LF': 'list fl', 'PFF': '(fl * fl)', 'PFZ': '(fl * Z)'}
 RAISES = {'ValueError': 4}
 
 
@@ -286,14 +298,18 @@ class Func(object):
       return 'Ok %s' % w
     if node is None:
       raise Untranslatable('bare return')
-    s, t = Expr(env, w).ex(node)
+    ex = Expr(env, w, self.new if self.mode == 'res' else None)
+    s, t = ex.ex(node)
     if self.ret == 'F':
-      s, t = Expr(env, w).as_float(s, t), 'F'
+      s, t = ex.as_float(s, t), 'F'
     if t != self.ret:
       raise Untranslatable('return type %s, expected %s' % (t, self.ret))
     if self.in_loop:
-      return 'Ok (Some %s)' % s
-    return s if self.mode == 'pure' else 'Ok %s' % s
+      return self.bound(ex, 'Ok (Some %s)' % s)
+    return s if self.mode == 'pure' else self.bound(ex, 'Ok %s' % s)
+
+  def bound(self, ex, text):
+    return ''.join('%s <- %s ;;\n' % b for b in ex.binds) + text
 
   def stmts(self, body, env, w, k, tail):
     """k(env, w): the text of what follows this block; tail: k is the end of the function (not of a loop body)."""
@@ -338,16 +354,26 @@ class Func(object):
 
   def assign(self, target, value, env, w, cont):
     if isinstance(target, ast.Name):
-      s, t = Expr(env, w).ex(value)
+      ex = Expr(env, w, self.new if self.mode == 'res' else None)
+      s, t = ex.ex(value)
       if t not in COQTYPE:
         raise Untranslatable('assignment of a %s' % t)
-      return 'let %s := %s in\n%s' % (cname(target.id), s, cont(dict(env, **{target.id: t}), w))
+      return self.bound(ex, 'let %s := %s in\n%s' % (cname(target.id), s, cont(dict(env, **{target.id: t}), w)))
     if isinstance(target, ast.Tuple) and len(target.elts) == 2 and all(isinstance(e, ast.Name) for e in target.elts):
+      a, b = target.elts[0].id, target.elts[1].id
+      if isinstance(value, ast.Tuple) and len(value.elts) == 2:
+        # a, b = E1, E2  is  a = E1; b = E2  when E2 does not read a
+        if a == b or a in names_in(value.elts[1]):
+          raise Untranslatable('parallel assignment with a dependency')
+        return self.assign(target.elts[0], value.elts[0], env, w,
+                           lambda env2, w2: self.assign(target.elts[1], value.elts[1], env2, w2, cont))
       s, t = Expr(env, w).ex(value)
+      if t in ('PFZ', 'PFF') and a != b:
+        env2 = dict(env, **{a: 'F', b: t[2]})
+        return 'let %s := fst %s in\nlet %s := snd %s in\n%s' % (cname(a), s, cname(b), s, cont(env2, w))
       if t != 'RP' or self.mode == 'pure':
         raise Untranslatable('tuple assignment from %s' % t)
       r = self.new('r')
-      a, b = target.elts[0].id, target.elts[1].id
       env2 = dict(env, **{a: 'F', b: 'F'})
       return '%s <- %s ;;\nlet %s := fst %s in\nlet %s := snd %s in\n%s' % (r, s, cname(a), r, cname(b), r, cont(env2, w))
     raise Untranslatable('assignment target')
@@ -584,12 +610,12 @@ TARGETS = [
   (CLS, '_adjust_all', 'gen_adjust_all', [], 'mut', None, []),
   (CLS, '_find_sparse_enough_range', 'gen_find_sparse_enough_range', ['F', 'F'], 'res', 'PFF', [3]),
   (CLS, 'prep_inserts_at_index', 'gen_prep_inserts_at_index', ['Z', 'Z'], 'mut', None, [7, 1, 2]),
+  (None, 'range_around_float', 'gen_range_around_float', ['F', 'Z'], 'res', 'PFF', []),
 ]
 # untranslated code the model was written from, pinned by the hash of its AST (docstrings and comments do not count)
 PINNED = [
   ('relabeling.py', None, '_group_insertions'), ('relabeling.py', None, 'nextfloat'), ('relabeling.py', None, 'prevfloat'),
   ('relabeling.py', None, 'is_valid_range'), ('relabeling.py', None, 'all_distinct'),
-  ('relabeling.py', None, 'range_around_float'),
   ('relabeling.py', CLS, '__init__'), ('relabeling.py', CLS, 'get_insertions'), ('relabeling.py', CLS, 'get_adjustments'),
   ('relabeling.py', CLS, '_do_adjust_range'),
   ('column.py', 'PositionColumn', None),
@@ -634,7 +660,7 @@ def pin_hashes(grist_dir):
 HEADER = '''(* GENERATED by harness/relabel2v.py from sandbox/grist/relabeling.py -- do not edit. *)
 From Coq Require Import ZArith List Bool.
 Import ListNotations.
-Require Import Grist.Lib.Fl64 Grist.Model.Relabel.
+Require Import Grist.Lib.Fl64 Grist.Model.Relabel Grist.Model.RelabelFrexp.
 Open Scope Z_scope.
 
 Section Gen.
@@ -675,6 +701,10 @@ Definition gen_eval (c : Z * list Z * list (Z * Z) * list Z * list Z * list Z) :
          | Ok (a', i') => (0, map (fun p => (fst p, encode (snd p))) a', [], map encode i')
          | Err c => (c, [], [], [])
          end
+  | 9 => match gen_range_around_float (x 0%nat) (z 0%nat) with
+         | Ok r => (0, [], [], [encode (fst r); encode (snd r)])
+         | Err c => (c, [], [], [])
+         end
   | _ => (-1, [], [], [])
   end.
 Definition gen_out_eqb (p q : gen_out) : bool :=
@@ -685,7 +715,7 @@ Definition gen_case_ok (c : (Z * list Z * list (Z * Z) * list Z * list Z * list 
   gen_out_eqb (gen_eval (fst c)) (snd c).
 '''
 FUNC_NUMBER = {'get_range': 0, '_adj_bisect_key_left': 1, '_adj_get_key': 2, 'count_range': 3, '_adjust_range': 4,
-               '_adjust_all': 5, '_find_sparse_enough_range': 6, 'prep_inserts_at_index': 7, 'prepare_inserts': 8}
+               '_adjust_all': 5, '_find_sparse_enough_range': 6, 'prep_inserts_at_index': 7, 'prepare_inserts': 8, 'range_around_float': 9}
 
 
 def translate_all(grist_dir):
